@@ -111,6 +111,16 @@ CHECKS = {
             "by the same key, `auto` pre-matches by key equality without skipping candidates. Which pairs the assignment "
             "picks among the allowed ones is NOT decided.",
             "DESIGN.md section 4 C10"),
+    "C02": ("guard-dominance analysis of zero-cost Match sites, projection agreement between cost and __eq__, index "
+            "def-use in the DP routine, status-flag dataflow in main, positivity analysis of constant edit costs",
+            "Static analysis of the structural clauses of 'zero cost iff equal': (R02a) all 16 literal-zero Match "
+            "constructions are dominated by an equality test on the same operands (idiom table in the rule, one reviewed "
+            "exception); (R02b) computed match costs use the projection __eq__ compares; (R02c) levenshtein_distance "
+            "returns the dimension-indexed cell; (R02d) the exit status is 1 iff had_edits and each of the three output "
+            "modes derives it from has_non_zero_cost() of what it printed; (R02e) node equality reads every component; "
+            "(R02f) removal/insertion/replacement costs are positive wherever the penalty can be 0. Positivity of "
+            "computed costs for arbitrary unequal values is NOT decided.",
+            "DESIGN.md section 4 C02"),
 }
 
 NOT_YET = "check not built yet in this session (static rules designed in DESIGN.md; will be claimed once the rule runs clean)"
